@@ -84,9 +84,9 @@ def alternates : Option Nat → List Cb → Bool
   | some k, .disc j :: rest => k == j && alternates none rest
   | _, _ => false
 
-/-- `server.Write(id, …)`: the connection the data is queued on. After /repo 9ab511e (`checkClosing`) a write fails, as for an
-    unknown id, while the channel of a previous connection of the id is published (its end is still being reported);
-    before, only the table was consulted. -/
+/-- `server.Write(id, …)`: the connection the data is queued on. The code consults the connection table only
+    (`checkClosing := false`). `checkClosing := true` is a candidate repair that was tried and withdrawn (a write fails, as for
+    an unknown id, while the channel of a previous connection of the id is published): kept to state what it would give. -/
 def writeTarget (checkClosing : Bool) (s : St) : Option Nat :=
   if checkClosing && s.closing.isSome then none else s.entry
 
